@@ -8,6 +8,8 @@ package c11
 import (
 	"bytes"
 	"context"
+	"crypto/sha256"
+	"encoding/base64"
 	"encoding/json"
 	"fmt"
 	"io"
@@ -17,6 +19,7 @@ import (
 	"net/url"
 	"os"
 	"sort"
+	"strconv"
 	"strings"
 	"testing"
 	"time"
@@ -31,6 +34,8 @@ import (
 	logging "github.com/ipfs/go-log/v2"
 	peer "github.com/libp2p/go-libp2p-core/peer"
 	ma "github.com/multiformats/go-multiaddr"
+	mbase "github.com/multiformats/go-multibase"
+	mh "github.com/multiformats/go-multihash"
 )
 
 type reqT struct {
@@ -49,6 +54,7 @@ type reqT struct {
 	Local  string            `json:"local"`
 	Filter string            `json:"filter"`
 	Ans    string            `json:"ans"`
+	NT     bool              `json:"nt"`
 	O      map[string]string `json:"o"`
 	A      map[string]string `json:"a"`
 }
@@ -84,6 +90,25 @@ const (
 )
 
 var t1 = time.Date(2030, 1, 2, 3, 4, 5, 0, time.UTC)
+var t2 = time.Date(2030, 1, 2, 5, 4, 5, 500000000, time.FixedZone("", 2*3600))
+var t0past = time.Date(2001, 2, 3, 4, 5, 6, 0, time.UTC)
+
+const t2text = "2030-01-02T05:04:05.5+02:00"
+
+var expireIn = map[string]time.Duration{"in1h": time.Hour, "in90m": 90 * time.Minute, "in1s": time.Second}
+
+// ascii renders non-ASCII runes as U+XXXX so that tokens are plain ASCII in the specification.
+func ascii(s string) string {
+	var b strings.Builder
+	for _, r := range s {
+		if r < 0x80 {
+			b.WriteRune(r)
+		} else {
+			fmt.Fprintf(&b, "U+%04X", r)
+		}
+	}
+	return b.String()
+}
 
 type env struct {
 	names   *hx.Names
@@ -129,6 +154,10 @@ func newEnv() (*env, error) {
 	}
 	logging.SetAllLoggers(logging.LevelFatal)
 	e := &env{names: hx.NewNames(hx.Seed()), addr: map[string]string{}, clients: map[string]client.Client{}}
+	// p4: a sha256 ("Qm...") peer ID, the other textual family of peer IDs
+	qsum := sha256.Sum256([]byte(fmt.Sprintf("c11/qm/%d", hx.Seed())))
+	qmh, _ := mh.Encode(qsum[:], mh.SHA2_256)
+	e.names.SetPeer("p4", peer.ID(qmh))
 	c1, c2, c3 := e.names.Cid("c1"), e.names.Cid("c2"), e.names.Cid("c3")
 	seed := []*api.Pin{api.PinCid(c3), api.PinCid(c1), api.PinCid(c2)}
 	for i, p := range seed {
@@ -148,15 +177,23 @@ func newEnv() (*env, error) {
 		CheckRedirect: func(*http.Request, []*http.Request) error { return http.ErrUseLastResponse }}
 	o1, _ := ma.NewMultiaddr("/ip4/1.2.3.4/tcp/4001/p2p/" + peer.Encode(e.names.Peer("p1")))
 	o2, _ := ma.NewMultiaddr("/dns4/example.com/tcp/4001/p2p/" + peer.Encode(e.names.Peer("p2")))
-	e.origins = map[string]ma.Multiaddr{"o1": o1, "o2": o2}
-	e.nameVal = map[string]string{"plain": "mypin", "special": "a&b=c é#%+/?;"}
-	e.metaVal = map[string]map[string]string{"one": {"k1": "v1"}, "two": {"k1": "v1", "k2": "v 2&x"}}
+	o3, _ := ma.NewMultiaddr("/p2p/" + peer.Encode(e.names.Peer("p1")))
+	e.origins = map[string]ma.Multiaddr{"o1": o1, "o2": o2, "o3": o3}
+	e.nameVal = map[string]string{"plain": "mypin", "special": "a&b=c é#%+/?;", "ws": "  padded name\t"}
+	e.metaVal = map[string]map[string]string{"one": {"k1": "v1"}, "two": {"k1": "v1", "k2": "v 2&x"},
+		"prefixy":  {"meta": "1", "type": "2", "a": "3", "-x": "4", "team": "5", "e": "6", "mm": "7"},
+		"special":  {"a=b": "1", "c&d": "2", "ké": "中", "sp ace": "4", "meta-inner": "5", "empty-val": ""},
+		"emptykey": {"": "x", "k1": "v1"}}
+	if o1 == nil || o2 == nil || o3 == nil {
+		return nil, fmt.Errorf("cannot build the origin multiaddresses")
+	}
 	s1, s2 := c1.String(), c2.String()
 	e.paths = map[string]string{
 		"ipfs": "/ipfs/" + s1, "ipfssub": "/ipfs/" + s1 + "/a/b.txt", "ipns": "/ipns/example.com",
 		"ipnssub": "/ipns/example.com/dir/file", "ipld": "/ipld/" + s2, "space": "/ipfs/" + s1 + "/my file",
 		"qmark": "/ipfs/" + s1 + "/a?b", "hash": "/ipfs/" + s1 + "/a#b", "pct": "/ipfs/" + s1 + "/a%41b",
 		"unicode": "/ipfs/" + s1 + "/é中", "badcid": "/ipfs/notacid", "badcidsub": "/ipld/notacid/x",
+		"plus": "/ipfs/" + s1 + "/a+b c", "amp": "/ipfs/" + s2 + "/a&b=c;d",
 	}
 	// wait until both servers answer
 	deadline := time.Now().Add(30 * time.Second)
@@ -193,8 +230,18 @@ func (e *env) cidStr(class string) string {
 		return e.names.Cid("c1").String()
 	case "v1":
 		return e.names.Cid("c2").String()
+	case "v1b58":
+		s, err := e.names.Cid("c2").StringOfBase(mbase.Base58BTC)
+		if err != nil {
+			panic(err)
+		}
+		return s
 	case "trunc":
 		return e.names.Cid("c1").String()[:20]
+	case "v1trunc":
+		return e.names.Cid("c2").String()[:30]
+	case "space":
+		return " "
 	default:
 		return "notacid"
 	}
@@ -211,8 +258,15 @@ func (e *env) urlPath(r *reqT) string {
 	case "peers":
 		return "/peers"
 	case "peers_peer":
-		if r.Peer == "valid" {
+		switch r.Peer {
+		case "valid":
 			return "/peers/" + peer.Encode(e.names.Peer("p3"))
+		case "qm":
+			return "/peers/" + peer.Encode(e.names.Peer("p4"))
+		case "cidform":
+			return "/peers/" + peer.ToCid(e.names.Peer("p3")).String()
+		case "trunc":
+			return "/peers/" + peer.Encode(e.names.Peer("p3"))[:20]
 		}
 		return "/peers/notapeer"
 	case "add":
@@ -220,15 +274,15 @@ func (e *env) urlPath(r *reqT) string {
 	case "allocations":
 		return "/allocations"
 	case "allocations_hash":
-		return "/allocations/" + e.cidStr(r.Cid)
+		return "/allocations/" + esc(e.cidStr(r.Cid))
 	case "pins":
 		return "/pins"
 	case "pins_hash_recover":
-		return "/pins/" + e.cidStr(r.Cid) + "/recover"
+		return "/pins/" + esc(e.cidStr(r.Cid)) + "/recover"
 	case "pins_recover":
 		return "/pins/recover"
 	case "pins_hash":
-		return "/pins/" + e.cidStr(r.Cid)
+		return "/pins/" + esc(e.cidStr(r.Cid))
 	case "pins_path":
 		return "/pins" + esc(e.paths[r.Path])
 	case "ipfs_gc":
@@ -261,19 +315,21 @@ type kv struct{ k, v string }
 
 func (e *env) optQuery(o map[string]string) []kv {
 	var q []kv
-	p1, p2 := peer.Encode(e.names.Peer("p1")), peer.Encode(e.names.Peer("p2"))
+	p1, p2, p4 := peer.Encode(e.names.Peer("p1")), peer.Encode(e.names.Peer("p2")), peer.Encode(e.names.Peer("p4"))
 	add := func(k, v string) { q = append(q, kv{k, v}) }
-	switch o["name"] {
-	case "plain", "special":
-		add("name", e.nameVal[o["name"]])
+	if v, ok := e.nameVal[o["name"]]; ok {
+		add("name", v)
 	}
 	switch o["mode"] {
 	case "recursive", "direct":
 		add("mode", o["mode"])
 	case "garbage":
 		add("mode", "dirct")
+	case "upper":
+		add("mode", "DIRECT")
 	}
-	num := map[string]string{"one": "1", "two": "2", "three": "3", "neg": "-1", "garbage": "abc", "float": "1.5"}
+	num := map[string]string{"zero": "0", "one": "1", "two": "2", "three": "3", "neg": "-1", "negtwo": "-2", "plus": "+2",
+		"garbage": "abc", "float": "1.5", "spacey": " 2", "huge": "99999999999999999999"}
 	if c := o["rmin"]; c != "absent" {
 		add("replication-min", num[c])
 	}
@@ -281,32 +337,53 @@ func (e *env) optQuery(o map[string]string) []kv {
 		add("replication-max", num[c])
 	}
 	if c := o["repl"]; c != "absent" {
-		add("replication", map[string]string{"one": "1", "garbage": "1x"}[c])
+		add("replication", map[string]string{"one": "1", "neg": "-1", "zero": "0", "garbage": "1x"}[c])
 	}
 	if c := o["shard"]; c != "absent" {
-		add("shard-size", map[string]string{"k1024": "1024", "garbage": "big", "negative": "-5"}[c])
+		add("shard-size", map[string]string{"k1024": "1024", "zero": "0", "big": "9223372036854775813", "garbage": "big",
+			"negative": "-5", "float": "10.5", "plus": "+5"}[c])
 	}
 	switch o["ualloc"] {
 	case "one":
 		add("user-allocations", p1)
 	case "two":
 		add("user-allocations", p1+","+p2)
+	case "qm":
+		add("user-allocations", p4)
+	case "dup":
+		add("user-allocations", p1+","+p1)
 	case "garbage":
 		add("user-allocations", "notapeer")
 	case "mixed":
 		add("user-allocations", p1+",notapeer")
+	case "spaced":
+		add("user-allocations", p1+", "+p2)
 	}
 	switch o["expire"] {
 	case "at":
 		add("expire-at", t1.Format(time.RFC3339))
+	case "atfrac":
+		add("expire-at", t2text)
+	case "atpast":
+		add("expire-at", t0past.Format(time.RFC3339))
 	case "atgarbage":
 		add("expire-at", "tomorrow")
+	case "atdate":
+		add("expire-at", "2030-01-02")
 	case "in1h":
 		add("expire-in", "1h")
+	case "in90m":
+		add("expire-in", "1h30m")
+	case "in1s":
+		add("expire-in", "1s")
 	case "inshort":
-		add("expire-in", "10ms")
+		add("expire-in", "999ms")
 	case "ingarbage":
 		add("expire-in", "soon")
+	case "inneg":
+		add("expire-in", "-1h")
+	case "innounit":
+		add("expire-in", "3600")
 	}
 	if m, ok := e.metaVal[o["meta"]]; ok {
 		ks := []string{}
@@ -321,6 +398,8 @@ func (e *env) optQuery(o map[string]string) []kv {
 	switch o["update"] {
 	case "v0":
 		add("pin-update", e.names.Cid("c9").String())
+	case "v1":
+		add("pin-update", e.names.Cid("c8").String())
 	case "garbage":
 		add("pin-update", "notacid")
 	}
@@ -329,10 +408,14 @@ func (e *env) optQuery(o map[string]string) []kv {
 		add("origins", e.origins["o1"].String())
 	case "two":
 		add("origins", e.origins["o1"].String()+","+e.origins["o2"].String())
+	case "onlyp2p":
+		add("origins", e.origins["o3"].String())
 	case "nopeer":
 		add("origins", "/ip4/1.2.3.4/tcp/4001")
 	case "garbage":
 		add("origins", "notamultiaddr")
+	case "spaced":
+		add("origins", e.origins["o1"].String()+", "+e.origins["o2"].String())
 	}
 	return q
 }
@@ -383,24 +466,38 @@ func (e *env) query(r *reqT) string {
 	if r.A != nil && r.Pat == "add" {
 		q = append(q, addQuery(r.A)...)
 	}
-	if r.Local != "absent" && r.Local != "" {
+	switch r.Local {
+	case "true", "false":
 		q = append(q, kv{"local", r.Local})
+	case "upper":
+		q = append(q, kv{"local", "TRUE"})
+	case "one":
+		q = append(q, kv{"local", "1"})
+	case "garbage":
+		q = append(q, kv{"local", "maybe"})
+	}
+	alloc := r.Pat == "allocations"
+	pick := func(a, b string) string {
+		if alloc {
+			return a
+		}
+		return b
 	}
 	switch r.Filter {
 	case "valid":
-		if r.Pat == "allocations" {
-			q = append(q, kv{"filter", "pin"})
-		} else {
-			q = append(q, kv{"filter", "pinned"})
-		}
+		q = append(q, kv{"filter", pick("pin", "pinned")})
 	case "multi":
-		if r.Pat == "allocations" {
-			q = append(q, kv{"filter", "pin,meta-pin"})
-		} else {
-			q = append(q, kv{"filter", "pinned,pin_error"})
-		}
+		q = append(q, kv{"filter", pick("pin,meta-pin", "pinned,pin_error")})
+	case "composite":
+		q = append(q, kv{"filter", pick("all", "error")})
+	case "dup":
+		q = append(q, kv{"filter", pick("pin,pin", "pinned,pinned")})
+	case "mixed":
+		q = append(q, kv{"filter", pick("pin,garbage", "pinned,garbage")})
 	case "invalid":
 		q = append(q, kv{"filter", "garbage"})
+	case "undefined":
+		q = append(q, kv{"filter", "undefined"})
 	}
 	parts := []string{}
 	for _, x := range q {
@@ -426,6 +523,12 @@ func (e *env) body(r *reqT) (io.Reader, string) {
 		return strings.NewReader(""), "application/json"
 	case "wrongtype":
 		return strings.NewReader(`{"peer_id":5}`), "application/json"
+	case "extra":
+		return strings.NewReader(`{"unknown":[1,2],"peer_id":"` + p3 + `"}`), "application/json"
+	case "array":
+		return strings.NewReader(`["` + p3 + `"]`), "application/json"
+	case "null":
+		return strings.NewReader(`null`), "application/json"
 	case "file":
 		var buf bytes.Buffer
 		w := multipart.NewWriter(&buf)
@@ -440,23 +543,46 @@ func (e *env) body(r *reqT) (io.Reader, string) {
 }
 
 func (e *env) setCred(r *reqT, h *http.Request) {
+	b64 := func(x string) string { return base64.StdEncoding.EncodeToString([]byte(x)) }
 	switch r.Cred {
 	case "right":
 		h.SetBasicAuth(user1, pass1)
 	case "right2":
 		h.SetBasicAuth(user2, pass2)
+	case "rightlower":
+		h.Header.Set("Authorization", "basic "+b64(user1+":"+pass1))
 	case "wronguser":
 		h.SetBasicAuth("mallory", pass1)
 	case "wrongpass":
 		h.SetBasicAuth(user1, "Correct horse")
 	case "swapped":
 		h.SetBasicAuth(user1, pass2)
+	case "user2pass1":
+		h.SetBasicAuth(user2, pass1)
 	case "emptypass":
 		h.SetBasicAuth(user1, "")
+	case "unknownempty":
+		h.SetBasicAuth("mallory", "")
+	case "emptyempty":
+		h.SetBasicAuth("", "")
+	case "emptyuser":
+		h.SetBasicAuth("", pass1)
+	case "userpassswap":
+		h.SetBasicAuth(pass1, user1)
+	case "caseuser":
+		h.SetBasicAuth("Alice", pass1)
+	case "passspace":
+		h.SetBasicAuth(user1, pass1+" ")
+	case "passprefix":
+		h.SetBasicAuth(user1, pass1[:len(pass1)-1])
+	case "nocolon":
+		h.Header.Set("Authorization", "Basic "+b64(user1))
 	case "malformed":
 		h.Header.Set("Authorization", "Basic !!!not-base64!!!")
 	case "bearer":
 		h.Header.Set("Authorization", "Bearer "+pass1)
+	case "digest":
+		h.Header.Set("Authorization", `Digest username="`+user1+`", response="`+pass1+`"`)
 	}
 }
 
@@ -485,14 +611,23 @@ func (e *env) projOpts(po *api.PinOptions, t0, t1x time.Time) map[string]interfa
 		expire = "none"
 	case po.ExpireAt.Equal(t1):
 		expire = "T1"
-	case !po.ExpireAt.Before(t0.Add(time.Hour-time.Second)) && !po.ExpireAt.After(t1x.Add(time.Hour+time.Second)):
-		expire = "in1h"
+	case po.ExpireAt.Equal(t2):
+		expire = "T2"
+	case po.ExpireAt.Equal(t0past):
+		expire = "T0"
+	default:
+		for tok, d := range expireIn {
+			if !po.ExpireAt.Before(t0.Add(d-100*time.Millisecond)) && !po.ExpireAt.After(t1x.Add(d+100*time.Millisecond)) {
+				expire = tok
+			}
+		}
 	}
-	meta := []string{}
+	// metadata field by field: (key, value) pairs in key order
+	meta := [][]string{}
 	for k, v := range po.Metadata {
-		meta = append(meta, k+"="+v)
+		meta = append(meta, []string{ascii(k), ascii(v)})
 	}
-	sort.Strings(meta)
+	sort.Slice(meta, func(i, j int) bool { return meta[i][0] < meta[j][0] })
 	update := "none"
 	if po.PinUpdate.Defined() {
 		update = e.names.CidName(po.PinUpdate)
@@ -512,7 +647,7 @@ func (e *env) projOpts(po *api.PinOptions, t0, t1x time.Time) map[string]interfa
 	}
 	ua := e.names.PeerNames(po.UserAllocations)
 	return map[string]interface{}{"name": name, "mode": mode, "rmin": po.ReplicationFactorMin,
-		"rmax": po.ReplicationFactorMax, "shard": int64(po.ShardSize), "ualloc": ua, "expire": expire, "meta": meta,
+		"rmax": po.ReplicationFactorMax, "shard": strconv.FormatUint(po.ShardSize, 10), "ualloc": ua, "expire": expire, "meta": meta,
 		"update": update, "origins": origins}
 }
 
@@ -567,6 +702,8 @@ func (e *env) project(calls []call, t0, t1x time.Time, root string) []opT {
 				f = "pinned"
 			case api.TrackerStatusPinned | api.TrackerStatusPinError:
 				f = "pinned,pin_error"
+			case api.TrackerStatusError:
+				f = "error"
 			}
 			arg = map[string]interface{}{"k": "filter", "f": f}
 		case string:
@@ -671,34 +808,11 @@ func (e *env) runHTTP(r *reqT, raw json.RawMessage) (*recT, error) {
 	return &recT{ID: r.ID, Req: raw, Obs: obs, URL: r.Method + " " + u}, nil
 }
 
-func nontrivialHTTP(r *reqT) bool {
-	if r.Cfg == "auth" {
-		return true
-	}
-	for _, v := range []string{r.Cid, r.Path, r.Peer, r.Body} {
-		switch v {
-		case "garbage", "trunc", "badcid", "badcidsub", "badjson", "wrongfield", "badpeer", "empty", "wrongtype", "notmultipart":
-			return true
-		}
-	}
-	if r.Filter == "invalid" {
-		return true
-	}
-	for _, m := range []map[string]string{r.O, r.A} {
-		for _, v := range m {
-			switch v {
-			case "garbage", "float", "negative", "atgarbage", "inshort", "ingarbage", "nopeer", "mixed":
-				return true
-			}
-		}
-	}
-	return false
-}
-
 func abstractID(raw json.RawMessage) interface{} {
 	var m map[string]interface{}
 	json.Unmarshal(raw, &m)
 	delete(m, "id")
+	delete(m, "nt")
 	return m
 }
 
@@ -743,6 +857,6 @@ func TestDriver(t *testing.T) {
 			res.Infra("trace write: %v", err)
 			return
 		}
-		res.Case(abstractID(raw), r.Via == "client" || nontrivialHTTP(&r))
+		res.Case(abstractID(raw), r.NT)
 	}
 }
